@@ -1,5 +1,10 @@
 mod c08;
 mod c09;
+mod c10;
+mod c11;
+mod c18;
+pub mod c19;
+mod c19p;
 mod lexprops;
 
 use model::run::Args;
@@ -10,6 +15,11 @@ fn main() {
         "C01" | "C02" | "C03" => lexprops::main(&args),
         "C08" => c08::main(&args),
         "C09" => c09::main(&args),
+        "C10" => c10::main(&args),
+        "C11" => c11::main(&args),
+        "C18" => c18::main(&args),
+        "C19" => c19::main(&args),
+        "C19P" => c19p::main(&args),
         other => {
             eprintln!("unknown property {other}");
             2
